@@ -129,8 +129,20 @@ def c02_text_extra(seed, tier):
 
 def gen_c13(seed, tier, start):
     cs = gen_modules(seed, tier, start, 300, 8000)
+    # probe elements: the slot-flag clause is decided against the source element
+    cs = cs + gen_cases.gen_site_cases(seed, n_cases(tier, 300, 8000), start + len(cs))
     # hints are only emitted under optimize
     return with_options(cs, lambda o, c: o.__setitem__("optimize", True) if c["id"] % 4 else None)
+
+
+def judge_c13(case, side, res):
+    v = make_judge("oC13", "vC13", relevant=lambda c, s, r: '"optimize": true' in c["options"] or '"optimize":true' in c["options"])(case, side, res)
+    if v.get("ok", True) and res is not None and side.get("status") == "ok":
+        f = res.get("site_flags", "none")
+        if f not in ("1", "none"):
+            v["ok"] = False
+            v["oracle_why"] = "slot hint of the probe element: " + f
+    return v
 
 
 def jsfree_cases(start, tier, seed):
@@ -181,6 +193,10 @@ def judge_c09(case, side, res):
 
 def judge_c07(case, side, res):
     v = make_judge(None, "vC07")(case, side, res)
+    if res is not None and v.get("relevant") and res.get("gram_in", "1") != "1":
+        # the traversal theorems (C07_traversal_is_jsx_free, C07_module_is_jsx_free) assume Spec/Plain.gram of the parsed input
+        v["corr_ok"] = False
+        v["why"] = "the parsed input does not satisfy Spec/Plain.gram, the hypothesis of the C07 traversal theorems"
     if res and side.get("status") == "ok":
         if not side.get("diags"):
             if res.get("oC07", "1") != "1":
@@ -779,7 +795,7 @@ PROPS = {
         "gen": lambda seed, tier, start: gen_modules(seed, tier, start, 300, 8000),
         "judge": judge_c07,
         "trusted": ["`printed output re-parses` is a statement about SWC's printer and parser, checked per case, not proved"],
-        "assumptions": ["module level: the traversal reaches every JSX expression (checked by the census of the real output of each case)"],
+        "assumptions": ["module level: C07_module_is_jsx_free proves the model's whole transform JSX-free for every grammatical module (Spec/Plain.gram, re-checked on every parsed input of the run) with the resolveType hooks as hypotheses; those hypotheses are discharged when the option is off, with it on the census of the real output of each case covers the hooks"],
     },
     "C08": {
         "gen": lambda seed, tier, start: gen_modules(seed, tier, start, 260, 6000) + gen_cases.gen_types_cases(seed, 60 if tier == "quick" else 1500, start + 10000),
@@ -803,11 +819,10 @@ PROPS = {
             "assumptions": []},
     "C13": {
         "gen": gen_c13,
-        "judge": lambda c, s, r: (lambda v: (v.update({"ok": False, "oracle_why": "a slot with a file-bound identifier among its direct children (or inside elements nested directly in it) carries `_: 1`"}) or v)
-                                  if (v.get("ok", True) and r is not None and s.get("status") == "ok" and r.get("oC13slots", "1") != "1") else v)(
-            make_judge("oC13", "vC13", relevant=lambda c, s, r: '"optimize": true' in c["options"] or '"optimize":true' in c["options"])(c, s, r)),
-        "trusted": ["Spec/PatchFlags.v is this check's reading of Vue's patch-flag contract (shouldUpdateComponent / patchElement use of CLASS, STYLE, PROPS, FULL_PROPS, dynamicProps)"],
-        "assumptions": ["the `_`=2 rule for bound identifier children is covered by the correspondence (whole slot objects are in the view) and by C13_slot_hint_values; its full statement is not yet a theorem"],
+        "judge": judge_c13,
+        "trusted": ["Spec/PatchFlags.v is this check's reading of Vue's patch-flag contract (shouldUpdateComponent / patchElement use of CLASS, STYLE, PROPS, FULL_PROPS, dynamicProps)",
+                    "Spec/SlotFlag.dyn_text is this check's reading of `a slot's direct children ... reached by direct JSX nesting`; Spec/SlotFlagCheck.flags_site pairs nested source elements with output calls as Spec/SiteCheck does"],
+        "assumptions": ["the slot-flag clause is decided on probe elements (`const __site = <element>`) of the site stream; in whole modules it is covered by the correspondence (slot objects are in the C13 view) and the theorems C13_slot_flags_propagate / C13_slot_flag_is_dyn about the model"],
     },
     "C02": {
         "gen": lambda seed, tier, start: gen_sites(seed, tier, start, 400, 10000),
